@@ -3,7 +3,8 @@
       c12.whole     <str> <ptr-bits>          -> parse_whole_m / parse_bool_whole_m
       c12.prefix    <str> <ptr-bits> <base>   -> parser_parse_int / parser_parse_bool
       c12.getparser <str> <ptr-bits> <base>   -> the same (StdParser::parse_with = parser.parse_T())
-      c12.stdspec   <str> <ptr-bits>          -> Spec.std_parse / std_parse_bool ('+' accepted) *)
+      c12.stdspec   <str> <ptr-bits>          -> Spec.std_parse / std_parse_bool ('+' accepted)
+      c12.show      <int>                     -> Spec.show_int (decimal printing) *)
 From Coq Require Import List ZArith Bool String.
 From KV Require Import Base.Prelude Model.ParseInt Spec.ParseInt Glue.Val.
 Import ListNotations.
@@ -65,6 +66,7 @@ Definition c12_run (fam : string) (args : list val) : option string :=
       if String.eqb fam "c12.whole" then Some (c12_whole (as_bytes s) (as_Z ptr))
       else if String.eqb fam "c12.stdspec" then Some (c12_stdspec (as_bytes s) (as_Z ptr))
       else None
+  | [v] => if String.eqb fam "c12.show" then Some (show_bytes (show_int (as_Z v))) else None
   | [s; ptr; base] =>
       if String.eqb fam "c12.prefix" then Some (c12_prefix (as_bytes s) (as_Z ptr) (as_Z base))
       else if String.eqb fam "c12.getparser" then Some (c12_prefix (as_bytes s) (as_Z ptr) (as_Z base))
